@@ -3,6 +3,8 @@ package main
 
 import (
 	"bytes"
+
+	"github.com/b2broker/simplefix-go/fix"
 	"fmt"
 	"reflect"
 	"runtime"
@@ -19,7 +21,7 @@ func howClass(e string) string { return e }
 
 func main() {
 	c := vk.Init("C17")
-	c.Rule("case i: PRNG(seed,i) draws a template (fields/components/groups, depth<=3, 7 value types, header/body/trailer), a population (each leaf populated with p=0.7 through one of 5 constructor/setter paths; Set(nil) un-population; group entries direct or via AsTemplate) and values; plus every tests/fix44 message type populated through the items it exposes, plus the generated typed API by reflection (values set on group entries before AddEntry, on entries handed back by Entries(), and members replaced as a whole through Set<Component>/Set<Group> must be on the wire). distinct = hash(template shape, wire bytes); non-trivial = at least one populated non-framing field")
+	c.Rule("case i: PRNG(seed,i) draws a template (fields/components/groups, depth<=3, 7 value types, header/body/trailer), a population (each leaf populated with p=0.7 through one of 5 constructor/setter paths; Set(nil) un-population; group entries direct or via AsTemplate) and values; plus every tests/fix44 message type populated through the items it exposes, plus the generated typed API by reflection (values set on group entries before AddEntry, on entries handed back by Entries(), and members replaced as a whole through Set<Component>/Set<Group> must be on the wire); plus updates AFTER a serialization on every fix44 message and every fourth template message: one body field set / un-set through its value, one group entry added, header untouched, serialized again after each step. distinct = hash(template shape, wire bytes); non-trivial = at least one populated non-framing field")
 	c.Assume("fixref tokenizer and the harness's expected-field computation are the trusted base")
 	c.Assume("a Message is always given a header and a trailer component (possibly empty); never-SetHeader messages are not generated")
 	n := c.Pick(20000, 500000)
@@ -84,6 +86,9 @@ func main() {
 		m, be := mp.Build()
 		wire, err, pan := gen.Serialize(m)
 		judge("template", i, t.FT, t.Shape(), mp.Expected(true), wire, err, pan, mp.Describe(), be.Errs)
+		if err == nil && pan == "" && i%4 == 0 {
+			updateAfterSerialization(c, "template", i, m, tagCountsOf(m))
+		}
 		c.Count("unset_fields", int64(countUnset(mp)))
 	})
 	vk.Parallel(nf44*len(gen.F44Types), runtime.NumCPU(), func(i int) {
@@ -97,11 +102,140 @@ func main() {
 			d = append(d, e.Path+":"+e.String())
 		}
 		judge("fix44/"+ty.Name, i, fixref.Std, "fix44/"+ty.Name, exp, wire, err, pan, strings.Join(d, " | "), errs)
+		if err == nil && pan == "" {
+			updateAfterSerialization(c, "fix44/"+ty.Name, i, m, tagCountsOf(m))
+		}
 		c.SetAdd("fix44_types", ty.Name)
 	})
 	typedAPI(c)
 	c.Finish()
 	fmt.Println("done")
+}
+
+// firstStringLeaf finds the first String-valued field of an item list (through components, not into groups) and the
+// first group.
+func firstStringLeaf(items fix.Items) (*fix.KeyValue, *fix.Group) {
+	var kvOut *fix.KeyValue
+	var gOut *fix.Group
+	var walk func(items fix.Items)
+	walk = func(items fix.Items) {
+		for _, it := range items {
+			switch el := it.(type) {
+			case *fix.KeyValue:
+				if _, ok := el.Value.(*fix.String); ok && el != nil && kvOut == nil {
+					kvOut = el
+				}
+			case *fix.Component:
+				if el != nil {
+					walk(el.Items())
+				}
+			case *fix.Group:
+				if el != nil && gOut == nil {
+					gOut = el
+				}
+			}
+		}
+	}
+	walk(items)
+	return kvOut, gOut
+}
+
+// tagCountsOf counts how many template positions carry each tag (fields and group count fields, entry templates included).
+func tagCountsOf(m *fix.Message) map[string]int {
+	return gen.TagCounts(m.Items())
+}
+
+func countField(fs []fixref.Field, tag, val string) (withTag, withVal int) {
+	for _, f := range fs {
+		if f.Tag == tag {
+			withTag++
+			if string(f.Val) == val {
+				withVal++
+			}
+		}
+	}
+	return
+}
+
+// updateAfterSerialization changes BODY content of a message object that has already been serialized, through the
+// value setters and AddEntry only (the header is left exactly as it was), and serializes it again after every change:
+// the new value is on the wire once, a value un-set with Set(nil) is gone, a new group entry is counted and present.
+func updateAfterSerialization(c *vk.Ctx, kind string, idx int, m *fix.Message, tagCount map[string]int) {
+	kv, g := firstStringLeaf(m.Body())
+	replay := map[string]interface{}{"generator": kind, "index": idx, "seed": c.Seed}
+	ser := func(step string) ([]fixref.Field, bool) {
+		wire, err, pan := gen.Serialize(m)
+		if err != nil || pan != "" {
+			c.Violate("C17/update-after-serialization/serialize-failed", fmt.Sprintf("%s #%d after %s: err=%v panic=%s", kind, idx, step, err, pan), replay)
+			return nil, false
+		}
+		fs, terr := fixref.Tokenize(wire)
+		if terr != nil {
+			c.Violate("C17/update-after-serialization/wire-malformed", fmt.Sprintf("%s #%d after %s: %v", kind, idx, step, terr), replay)
+			return nil, false
+		}
+		replay["wire"] = vk.Trunc(fixref.Pretty(wire), 1200)
+		return fs, true
+	}
+	if kv != nil && tagCount[kv.Key] == 1 {
+		marker := fmt.Sprintf("upd-%d", idx)
+		if err := kv.Value.Set(marker); err == nil {
+			if fs, ok := ser("Set"); ok {
+				c.Count("updates_after_serialization/Set", 1)
+				if nt, nv := countField(fs, kv.Key, marker); nt != 1 || nv != 1 {
+					c.Violate("C17/update-after-serialization/set-value-not-on-wire", fmt.Sprintf("%s #%d: field %s was set to %q on a message object that had been serialized before (header untouched); the next ToBytes carries the tag %d times, with that value %d times", kind, idx, kv.Key, marker, nt, nv), replay)
+					return
+				}
+			}
+			_ = kv.Value.Set(nil)
+			if fs, ok := ser("Set(nil)"); ok {
+				c.Count("updates_after_serialization/Set(nil)", 1)
+				if nt, _ := countField(fs, kv.Key, marker); nt != 0 {
+					c.Violate("C17/update-after-serialization/unset-value-still-on-wire", fmt.Sprintf("%s #%d: field %s was un-set with Set(nil) after a serialization; the next ToBytes still carries it", kind, idx, kv.Key), replay)
+					return
+				}
+			}
+		}
+	}
+	if g != nil && tagCount[g.NoTag()] == 1 {
+		entry := g.AsTemplate()
+		var leaf *fix.KeyValue
+		for _, it := range entry {
+			if el, ok := it.(*fix.KeyValue); ok && el != nil {
+				leaf = el
+			}
+			break // the first member of an entry is its delimiter field
+		}
+		if leaf == nil || tagCount[leaf.Key] != 1 {
+			return
+		}
+		marker := strconv.Itoa(700000 + idx%90000)
+		checkValue := false
+		switch leaf.Value.(type) {
+		case *fix.String, *fix.Int, *fix.Raw, *fix.Uint:
+			checkValue = true // these render the marker text unchanged
+		}
+		if err := leaf.FromBytes([]byte(marker)); err != nil {
+			return
+		}
+		if !checkValue {
+			// other value types: populate the first field with a value of its type; only the count field is judged
+			marker = string(leaf.Value.ToBytes())
+			if marker == "" {
+				return
+			}
+		}
+		before := len(g.Entries())
+		g.AddEntry(entry)
+		if fs, ok := ser("AddEntry"); ok {
+			c.Count("updates_after_serialization/AddEntry", 1)
+			_, nc := countField(fs, g.NoTag(), strconv.Itoa(before+1))
+			_, nv := countField(fs, leaf.Key, marker)
+			if nc != 1 || (checkValue && nv != 1) || nv < 1 {
+				c.Violate("C17/update-after-serialization/added-entry-not-on-wire", fmt.Sprintf("%s #%d: an entry (first field %s=%s) was added to group %s (%d entries before) after a serialization; the next ToBytes has count field %s=%d %d times and the entry's first field %d times", kind, idx, leaf.Key, marker, g.NoTag(), before, g.NoTag(), before+1, nc, nv), replay)
+			}
+		}
+	}
 }
 
 func countUnset(mp *gen.MsgPop) int {
